@@ -299,7 +299,11 @@ def merge_tolerance(chk, tier, rng):
     1e-9 relative (+1e-12); otherwise one task's value is handed to another and the result depends on the request."""
     nq, np_, nv = 2, 3, 1
     TOL_R, TOL_A = Fraction(1, 10 ** 9), Fraction(1, 10 ** 12)
-    cases = [["c22", "c44"], ["c44", "c22"]] if tier == "quick" else [["c22", "c44"], ["c44", "c22"], ["c11", "c55"], ["c33", "c66", "c12"]]
+    # mixed shear keys (c14 ... c56) use three different rotated axes: their off-diagonal dependencies are where a merge meets a
+    # structurally different (and differently hashed) parameter set
+    cases = [["c22", "c44"], ["c44", "c22"], ["c14"], ["c12", "c46"]]
+    if tier != "quick":
+        cases += [["c11", "c55"], ["c33", "c66", "c12"], ["c15"], ["c56"], ["c13", "c25"], ["c36", "c23"]]
     for R in cases:
         name = "merge-tolerance%s" % R
         ctx, duck, strain = make_problem(nq, np_, nv, "sym")
@@ -309,7 +313,8 @@ def merge_tolerance(chk, tier, rng):
         ex = X.Explorer(max_paths=64 if tier == "quick" else 256, name=name, decision_timeout_ms=4000)
         t0 = time.time()
         try:
-            paths, proxy = PL.run_pipeline(duck, strain, R, close_mode="solver", explorer=ex, calculate=False)
+            # the whole pipeline runs on every path: a merge must neither hand over a loose value nor make the calculation fail
+            paths, proxy = PL.run_pipeline(duck, strain, R, close_mode="solver", explorer=ex, calculate=True)
         except X.PathBudgetExceeded as e:
             chk.inconclusive(name, str(e))
             continue
@@ -318,6 +323,16 @@ def merge_tolerance(chk, tier, rng):
             continue
         loose = None
         n_merge = 0
+        failing = [p for p in paths if p.exception is not None]
+        if failing:
+            p = failing[0]
+            v, env = Z.satisfiable([], name=name + ":failing-path-model", conds=p.path_condition())
+            chk.obligation(name + "[paths=%d]: the calculation completes on every path of the de-duplication" % len(paths), "sat",
+                           seconds=round(time.time() - t0, 1), kind="all-paths",
+                           detail="%s: %s under %s" % (type(p.exception).__name__, str(p.exception)[:80], [X.cond_str(c)[:80] for c in p.path_condition()][:2]))
+            e = [(env or {}).get("e_0_%d" % i, 1.0 / 3) for i in range(3)]
+            replay_request(chk, rng, R, "pipeline raises on a merge path", strain=numpy.array([e, e]))
+            continue
         for p in paths:
             pc = p.path_condition()
             for cond, outcome, forked in p.decisions:
